@@ -284,12 +284,15 @@ func (r *Rtmp2RtspRemuxer) remux(msg base.RtmpMsg) {
 				payload = msg.Payload[5:]
 			}
 
-			if RtspRemuxerAddSpsPps2KeyFrameFlag {
+			// payload starts with the 4-byte length of the first nalu: a key frame too short to hold it is
+			// forwarded as without the flag (the packer finds no nalu in it)
+			if RtspRemuxerAddSpsPps2KeyFrameFlag && len(payload) > 4 {
+				nalu := payload[4:]
 				if msg.IsAvcKeyNalu() && r.sps != nil && r.pps != nil {
-					payload = h2645.JoinNaluAvcc(r.sps, r.pps, msg.Payload[9:])
+					payload = h2645.JoinNaluAvcc(r.sps, r.pps, nalu)
 				}
 				if msg.IsHevcKeyNalu() && r.vps != nil && r.sps != nil && r.pps != nil {
-					payload = h2645.JoinNaluAvcc(r.vps, r.sps, r.pps, msg.Payload[9:])
+					payload = h2645.JoinNaluAvcc(r.vps, r.sps, r.pps, nalu)
 				}
 			}
 
